@@ -23,7 +23,8 @@ ASSUMPTIONS = [
     "without a user handler only the delivered frames are checked (log records are counted as evidence)",
 ]
 GATES = ["events_checked", "mode0", "mode1", "mode2", "handler_calls_checked", "raise_resumed",
-         "pos:crc", "pos:payload", "pos:straddle"]
+         "pos:crc", "pos:payload", "pos:straddle", "backend:buffered", "backend:pipe", "backend:makefile",
+         "backend:bytesio"]
 
 
 def make_frames(rng, n):
@@ -60,7 +61,17 @@ def run_case(ctx, frames, damage, mode, handler, backend="file"):
         ctx.hit("handler_errtype:" + type(err).__name__)
         events.append(("handler", "any"))  # the property fixes the error class only for raise mode
 
-    stream = doubles.RecordingStream(data, budget=3 * len(data) + 16) if backend == "file" else io.BytesIO(data)
+    feeder = None
+    if backend == "file":
+        stream = doubles.RecordingStream(data, budget=3 * len(data) + 16)
+    elif backend == "buffered":  # BufferedReader over a non-seekable raw stream
+        stream = io.BufferedReader(doubles.RawChunky(data, (7, 64, 3, 1000)), buffer_size=64)
+    elif backend == "pipe":
+        stream, feeder = doubles.pipe_file(data)
+    elif backend == "makefile":
+        stream, feeder = doubles.makefile_stream(data)
+    else:
+        stream = io.BytesIO(data)
     with common.capture_logs("pyrtcm") as cap:
         rdr = RTCMReader(stream, validate=1, quitonerror=mode, errorhandler=(on_error if handler else None))
         problem = None
@@ -94,6 +105,13 @@ def run_case(ctx, frames, damage, mode, handler, backend="file"):
                     after_exc = False
                 events.append(("deliver", bytes(raw)))
         nlog = len(cap.records)
+    if feeder is not None:
+        try:
+            stream.close()
+        except OSError:
+            pass
+        feeder.join(5)
+    ctx.hit("backend:" + backend)
     # ---- expected event sequence
     exp = []
     for i, f in enumerate(frames):
@@ -181,7 +199,8 @@ def run(ctx):
         for k, sub in enumerate(subsets):
             mode, handler = combos[(it + k) % 6]
             damage = {i: damage_for(rng, frames[i]) for i in sub}
-            run_case(ctx, frames, damage, mode, handler, "file" if k % 5 else "bytesio")
+            run_case(ctx, frames, damage, mode, handler,
+                     ("file", "file", "bytesio", "buffered", "file", "pipe", "file", "makefile")[k % 8])
         # bit-position sweep on one frame
         i = rng.randrange(n)
         nb = len(frames[i]) * 8
